@@ -742,28 +742,25 @@ func writeSwitchCaseOverUnion(w *formatting.IndentedWriter, unionType *dsl.Gener
 }
 
 func typeConversionCallable(t dsl.Type) string {
-	switch t := t.(type) {
-	case *dsl.SimpleType:
-		switch t := t.ResolvedDefinition.(type) {
-		case dsl.PrimitiveDefinition:
-			switch t {
-			case dsl.Bool:
-				return "bool"
-			case dsl.Int8, dsl.Uint8, dsl.Int16, dsl.Uint16, dsl.Int32, dsl.Uint32, dsl.Int64, dsl.Uint64, dsl.Size:
-				return "int"
-			case dsl.Float32, dsl.Float64:
-				return "float"
-			case dsl.ComplexFloat32, dsl.ComplexFloat64:
-				return "complex"
-			case dsl.String:
-				return "str"
-			case dsl.Date:
-				return "datetime.date"
-			case dsl.Time:
-				return "datetime.time"
-			case dsl.DateTime:
-				return "datetime.datetime"
-			}
+	// The target may be an alias of a primitive type
+	if primitive, ok := dsl.GetPrimitiveType(t); ok {
+		switch primitive {
+		case dsl.Bool:
+			return "bool"
+		case dsl.Int8, dsl.Uint8, dsl.Int16, dsl.Uint16, dsl.Int32, dsl.Uint32, dsl.Int64, dsl.Uint64, dsl.Size:
+			return "int"
+		case dsl.Float32, dsl.Float64:
+			return "float"
+		case dsl.ComplexFloat32, dsl.ComplexFloat64:
+			return "complex"
+		case dsl.String:
+			return "str"
+		case dsl.Date:
+			return "datetime.date"
+		case dsl.Time:
+			return "datetime.time"
+		case dsl.DateTime:
+			return "datetime.datetime"
 		}
 	}
 	panic(fmt.Sprintf("Unsupported type '%s'", t))
